@@ -234,8 +234,8 @@ theorem civilOfDays_valid (n : Nat) :
   obtain ⟨h1, h2, h3⟩ := splitYear_spec n 1970 n (Nat.le_refl _)
   obtain ⟨m1, m2, m3⟩ := splitMonth_valid _ _ h2
   refine ⟨?_, h1, h3⟩
-  simp [civilOfDays, validDate]
-  omega
+  simp only [civilOfDays, validDate, Bool.and_eq_true]
+  exact ⟨⟨⟨decide_eq_true m1, decide_eq_true m2⟩, decide_eq_true (by omega)⟩, decide_eq_true (by omega)⟩
 
 def ltTriple (a b : Nat × Nat × Nat) : Prop :=
   a.1 < b.1 ∨ (a.1 = b.1 ∧ (a.2.1 < b.2.1 ∨ (a.2.1 = b.2.1 ∧ a.2.2 < b.2.2)))
